@@ -298,13 +298,16 @@ def tab_keys_opt(p, res):
 # ----------------------------------------------------------- TAB-KEYS-PARSE
 @rule('TAB-KEYS-PARSE', 'D', 'keys read from the parse-options dict are the keys markup.parse supplies')
 def tab_keys_parse(p, res):
+    from .. import shape
     mp = p.func('markup.parse')
+    VM = shape.View(p, mp)
     supplied = None
-    for c in mp.body_nodes():
-        if isinstance(c, ast.Call) and len(c.args) == 2 and isinstance(c.args[1], ast.Dict):
+    for c in VM.nodes:
+        if isinstance(c, ast.Call) and len(c.args) == 2 and isinstance(VM.xe(c.args[1]), ast.Dict):
             tgt = p.resolve_call(mp, c)
             if isinstance(tgt, list) and tgt and tgt[0].qualname == 'emmet.abbreviation.parse':
-                supplied = {p.const_value(mp, k): v for k, v in zip(c.args[1].keys, c.args[1].values)}
+                d = VM.xe(c.args[1])
+                supplied = {p.const_value(mp, k): v for k, v in zip(d.keys, d.values)}
                 call = c
     if supplied is None:
         raise AnalysisError('TAB-KEYS-PARSE: markup.parse no longer passes a dict display to abbreviation.parse')
@@ -327,19 +330,21 @@ def tab_keys_parse(p, res):
             elif isinstance(n, ast.Subscript) and isinstance(n.value, ast.Name) and n.value.id == pname and pname in ('params',):
                 raise AnalysisError('TAB-KEYS-PARSE: raw subscript on parse options in %s' % f.short)
     # provenance of the values that matter to C02/C04: max_repeat from config maxRepeat, text from config text
-    def has(sub, node):
-        return sub in src_of(node)
-    checks = [('max_repeat', "config.get('maxRepeat')"), ('text', 'text'), ('variables', 'config.variables'),
+    checks = [('max_repeat', "config.get('maxRepeat')"), ('text', "config.get('text')"), ('variables', 'config.variables'),
               ('options', 'config.options'), ('jsx', "config.options.get('jsx.enabled')")]
     for key, want in checks:
         node = supplied.get(key)
         if node is None:
             res.bad(F('TAB-KEYS-PARSE', mp.module, mp.short, call, 'parse options key %r' % key, 'key %r is no longer supplied' % key))
-        elif not has(want, node):
-            res.bad(F('TAB-KEYS-PARSE', mp.module, mp.short, node, '%r: %s' % (key, src_of(node)),
-                      'parse option %r must be taken from %s' % (key, want)))
+            continue
+        got = VM.x(node)
+        if want in got:
+            res.ok('%r: %s' % (key, got))
+        elif not any(isinstance(x, ast.Call) and p.resolve_call(mp, x) not in (None,) and not isinstance(p.resolve_call(mp, x), tuple) for x in ast.walk(VM.xe(node))):
+            # a plain expression over config that does not read the documented source
+            res.bad(F('TAB-KEYS-PARSE', mp.module, mp.short, node, '%r: %s' % (key, got), 'parse option %r must be taken from %s' % (key, want)))
         else:
-            res.ok('%r: %s' % (key, src_of(node)))
+            res.undecided('%r: %s' % (key, got), 'provenance of parse option %r (expected %s)' % (key, want))
     res.require_floor(9)
 
 
